@@ -497,6 +497,13 @@ def surface_recipes(ctx):
                                                                             "Crystal.promolecule_density_isosurfaces")):
             out.append({"kind": "surface", "api": api, "src": "crystal:P1 synthetic(seed=%d)" % seed, "mol": mol,
                         "cell": cell, "seps": seps})
+    # a compressed crystal: every point of the Hirshfeld surface is closer to a nucleus than the van der Waals radius on
+    # both sides (d_norm < 0 on the whole surface)
+    dense = {"els": [7, 7], "pos": [[100, 140, 160], [210, 140, 160]]}
+    out.append({"kind": "surface", "api": "Crystal.hirshfeld_surfaces", "src": "crystal:P1 compressed N2 (a = 3.0, 3.1, 3.2 A)",
+                "mol": dense, "cell": [300, 310, 320], "seps": seps})
+    out.append({"kind": "surface", "api": "Crystal.hirshfeld_surfaces", "src": "crystal:P1 compressed monatomic N (a = 1.80, 1.85, 1.90 A)",
+                "mol": {"els": [7], "pos": [[90, 92, 95]]}, "cell": [180, 185, 190], "seps": [50, 30] + ([20] if not ctx.quick else [])})
     return out
 
 
